@@ -170,9 +170,10 @@ def e2(ctx):
                 ok, why = True, ''
                 before = tr[:ev.seq]
                 if role is None:
-                    ok, why = False, 'DELETE on Cache in %s, which is not in the table of functions allowed to remove ' \
-                                     'rows: items would disappear without a removal call, expiry or eviction' % ev.fn.qual
-                elif role in ('explicit', 'explicit-head', 'expired-head'):
+                    # a function outside the table (new API): judged by form - it may only remove the very row it
+                    # selected by a caller-supplied key in the same block
+                    role = 'explicit'
+                if role in ('explicit', 'explicit-head', 'expired-head'):
                     w = st.where
                     good = w is not None and w[0] == 'cmp' and w[1] == '=' and sqlmod.colname(w[2]) == 'rowid' and \
                         plist and plist[0].k == 'col' and plist[0].a[1] == 'rowid'
